@@ -322,6 +322,17 @@ def op_renamedim(rng, f):
 def op_insertdim(rng, f):
     if is_ioapi(f):
         return None
+    if rng.random() < 0.25:
+        # a dimension the file already has, at its own length: the variables
+        # that lack it get it (newonly, the documented default)
+        have = [k for k, dm in f.dimensions.items() if len(dm) >= 1]
+        unl = [k for k in have if f.dimensions[k].isunlimited()]
+        if have:
+            dk = str(rng.choice(unl if unl and rng.random() < 0.7 else have))
+            ln = len(f.dimensions[dk])
+            return ('insertDimension(%s=%d) [existing dimension]' % (dk, ln),
+                    (lambda: f.insertDimension(**{dk: ln})), [], True,
+                    {'existing': dk})
     new = 'ins%d' % int(rng.integers(0, 3))
     if new in f.dimensions:
         return None
